@@ -31,26 +31,81 @@ def blockshape_atoms(test):
     return atoms
 
 
+def blockshape_facts(fm, node):
+    """{(k, c)}: `<x>blockshape[k] == c` holds on every path reaching ``node`` (whatever spelling established it:
+    conjunction, chained comparison, negated disjunction, early return, tuple-slice equality).  Equalities are closed
+    under transitivity first."""
+    import re
+    eqs = [(a[1], a[2]) for a in (fm.facts_at(node) or frozenset())
+           if a[0] == '==' and isinstance(a[1], str) and isinstance(a[2], str)]
+    # blockshape[lo:hi] == (c0, c1, ..)
+    for l, r in list(eqs):
+        for x, y in ((l, r), (r, l)):
+            m = re.fullmatch(r'((?:\w+\.)*\w*blockshape)\[(\d*):(\d*)\]', x)
+            if m:
+                try:
+                    tv = ast.literal_eval(y)
+                except Exception:
+                    continue
+                if isinstance(tv, (tuple, list)):
+                    lo = int(m.group(2) or 0)
+                    for i, c in enumerate(tv):
+                        if isinstance(c, int):
+                            eqs.append(('%s[%d]' % (m.group(1), lo + i), str(c)))
+    parent_ = {}
+
+    def find(x):
+        parent_.setdefault(x, x)
+        while parent_[x] != x:
+            parent_[x] = parent_[parent_[x]]
+            x = parent_[x]
+        return x
+    for l, r in eqs:
+        parent_[find(l)] = find(r)
+    classes = {}
+    for x in list(parent_):
+        classes.setdefault(find(x), set()).add(x)
+    out = set()
+    for members in classes.values():
+        consts = {int(x) for x in members if re.fullmatch(r'-?\d+', x)}
+        if len(consts) != 1:
+            continue
+        c = consts.pop()
+        for x in members:
+            m = re.fullmatch(r'(?:\w+\.)*\w*blockshape\[(\d+)\]', x)
+            if m:
+                out.add((int(m.group(1)), c))
+    return out
+
+
+def _switch_if(node, stop):
+    n = parent(node)
+    while n is not None and n is not stop:
+        if isinstance(n, ast.If) and 'blockshape[' in U(n.test):
+            return n
+        n = parent(n)
+    return None
+
+
 class Producer:
     def __init__(self, func, qparam, edge):
+        from .facts import FactMap
         self.func, self.qparam, self.edge = func, qparam, edge
         self.puts = [c for c in calls_in(func.node) if isinstance(c.func, ast.Attribute) and c.func.attr == 'put'
                      and U(c.func.value) == qparam]
         self.switch = None      # the If choosing whole-stream vs per-block emission
+        self.switch_atoms = set()
         self.whole_put = None
         self.block_puts = []
+        fm = FactMap(func.node)
         for c in self.puts:
-            p = parent(c)
-            n = c
-            while n is not None and n is not func.node:
-                if isinstance(n, ast.If) and blockshape_atoms(n.test) is not None:
-                    inbody = any(c is x for s in n.body for x in ast.walk(s))
-                    if inbody:
-                        self.switch, self.whole_put = n, c
-                    else:
-                        self.block_puts.append(c)
-                    break
-                n = parent(n)
+            at = blockshape_facts(fm, c)
+            sw = _switch_if(c, func.node)
+            if at:
+                self.whole_put, self.switch_atoms = c, at
+                self.switch = sw if sw is not None else enclosing_stmt(c)
+            elif sw is not None or any(blockshape_facts(fm, o) for o in self.puts if o is not c):
+                self.block_puts.append(c)
         self.hash_updates = [c for c in calls_in(func.node) if isinstance(c.func, ast.Attribute) and
                              c.func.attr == 'update' and 'hash' in U(c.func.value)]
         # outer group loop: the For containing every put
@@ -83,6 +138,7 @@ def reader_unit_order_predicates(P, G):
     the tests guarding calls to the specialised (non-general) loaders.  -> {'3d': set(atoms), '2d': set(atoms)}, sites"""
     reader = P.cls('read.SgzReader')
     preds = {'3d': [], '2d': [], 'unguarded': []}
+    fms = {}
     for m in reader.methods.values():
         for e in G.callees(m):
             t = e.target
@@ -90,20 +146,17 @@ def reader_unit_order_predicates(P, G):
                 continue
             if 'unshuffle' in t.name:
                 continue       # the general block-ordered loaders
-            n = e.call
-            guarded = False
-            while n is not None and n is not m.node:
-                if isinstance(n, ast.If):
-                    at = blockshape_atoms(n.test)
-                    inbody = any(e.call is x for s in n.body for x in ast.walk(s))
-                    if at is not None and inbody:
-                        dim = '2d' if t.cls.name.endswith('2d') else '3d'
-                        guarded = True
-                        # the z-slice layout predicate (blockshape[2] == 4) is a different specialisation
-                        if at != {(2, 4)}:
-                            preds[dim].append((at, m, n))
-                        break
-                n = parent(n)
+            from .facts import FactMap
+            if m.qualname not in fms:
+                fms[m.qualname] = FactMap(m.node)
+            at = blockshape_facts(fms[m.qualname], e.call)
+            guarded = bool(at)
+            if guarded:
+                dim = '2d' if t.cls.name.endswith('2d') else '3d'
+                n = _switch_if(e.call, m.node) or enclosing_stmt(e.call)
+                # the z-slice layout predicate (blockshape[2] == 4) is a different specialisation
+                if at != {(2, 4)}:
+                    preds[dim].append((at, m, n))
             if not guarded and not t.name.startswith('_') and t.name not in ('clear_cache', 'read_chunk_range') and \
                     m.cls is reader and e.kind not in ('thread', 'pool'):
                 preds['unguarded'].append((m, e.call, t))
